@@ -56,6 +56,16 @@ func genLimits(t *rapid.T) limits {
 	return tierLimits()
 }
 
+// genLimitsGiant is genLimits for the checks whose per-case cost stays linear (C01, C02, C05, C07,
+// C11, C15): in the thorough tier 1 case in 48 builds a forest of up to 12000 leaves with blocks of
+// thousands of additions and deletions (trees of 12+ rows emptied, subtrees of 12+ rows climbing).
+func genLimitsGiant(t *rapid.T) limits {
+	if thorough() && rapid.IntRange(0, 47).Draw(t, "giant") == 0 {
+		return limits{maxLeaves: 12000, maxBlocks: 9, maxAdd: 9000}
+	}
+	return genLimits(t)
+}
+
 var rowsChoices = []int{0, 1, 2, 3, 4, 5, 6, 8, 16, 31, 32, 33, 62, 63}
 
 func genRows(t *rapid.T, label string) int {
